@@ -466,6 +466,27 @@ def rule_r5(repo, run, P):
         run.ok(R, "typemap.Typemap.defaults[%s]" % f, sample=dict(field=f, rule="no in-place mutation found"))
 
 
+def rule_r6(repo, run):
+    R = run.rule("C07.R6", "per-run registries are rebuilt unconditionally at the start of a run")
+    tm = repo.module("typemap")
+    ini = tm.func("initialize")
+    first = [st for st in ini.body if not (isinstance(st, ast.Expr) and isinstance(st.value, ast.Constant))][0]
+    ok = isinstance(first, ast.Expr) and isinstance(first.value, ast.Call) and \
+        (pyflow.call_name(first.value) or "") == "set_global_types" and first.value.args and \
+        isinstance(first.value.args[0], ast.Dict) and not first.value.args[0].keys
+    early = [r for r in ast.walk(ini) if isinstance(r, ast.Return) and r.lineno < ini.body[-1].lineno and
+             any(True for t, pol in pyflow.dominating_tests(r, stop=ini))]
+    run.check(R, "typemap.initialize:fresh-registry", ok and not early,
+              "typemap.initialize() must first discard the previous registry (set_global_types({})) and then rebuild every "
+              "predefined type; reusing what an earlier run left behind carries its mutations (cached destructor indices, "
+              "YAML-updated fields) into the next library", tm.loc(ini))
+    mm = repo.module("main")
+    f = mm.func("main_with_args")
+    calls = [pyflow.call_name(c) or "" for c in ast.walk(f) if isinstance(c, ast.Call)]
+    run.check(R, "main.main_with_args:initialize", "typemap.initialize" in calls,
+              "every run must call typemap.initialize()", mm.loc(f))
+
+
 def run(repo, run, tier):
     tables.check_model_assumptions(repo)
     P = Program(repo)
@@ -474,6 +495,7 @@ def run(repo, run, tier):
     rule_r3(repo, run)
     rule_r4(repo, run)
     rule_r5(repo, run, P)
+    rule_r6(repo, run)
     run.assumptions.extend([
         "dict iteration order is insertion order (CPython >= 3.7) and therefore deterministic",
         "call resolution: own symbol tables (module functions, self.methods through the MRO, unique "
